@@ -233,6 +233,11 @@ def local_step(world, name, r, tag):
     if not o.ok and o.out:
         r.violate('C06:send:%s:%s:refused-call-emitted' % (name, tag), o.out.hex()[:60])
     if verdict == M.DONTCARE:
+        if o.ok and what in ('pushed-stream', 'pointless-but-legal'):
+            # whether the call is accepted is the library's choice; an accepted WINDOW_UPDATE or ALTSVC frame
+            # never moves the stream to another state, so the sequence goes on against the unchanged model
+            r.labels.add('stateless-dontcare-call-accepted')
+            return 'continue'
         return 'stop'
     if not o.ok:
         r.labels.add('refused-local-call')
